@@ -96,7 +96,7 @@ def classify_path(m, tp, p, line_no):
     # the recorded line number n of the first mismatch is not in the @V tuple; the sub index tells what was compared
     ops = "".join(s[0] for s in p)
     held = p and p[0][0] == "c" and p[0][1] == 1
-    what = {10: "attr_value", 11: "kernel_option", 12: "blocking", 13: "source_addr", 14: "tls_setting", 20: "peer_names"}.get(m["n"], "outcome%d" % m["n"])
+    what = {10: "attr_value", 11: "kernel_option", 12: "blocking", 13: "source_addr", 14: "tls_setting", 15: "reported_vs_kernel", 20: "peer_names"}.get(m["n"], "outcome%d" % m["n"])
     when = "held" if held else ("accept" if "A" in ops else "server" if ops.startswith("S") else "connect")
     return "%s/%s/%s" % (m["tag"], what, when)
 
